@@ -378,7 +378,10 @@ func match(attr string, op Operator, operand reflect.Value, events map[string][]
 		// return true if any value in the set of the event's values matches
 		match, err := matchValue(value, op, operand)
 		if err != nil {
-			return false, err
+			// A value that cannot be read as the operand's type does not match. It must not
+			// fail the whole query: another value of the set may match, and an error here makes
+			// the pubsub server abandon the publication for every remaining subscriber.
+			continue
 		}
 
 		if match {
